@@ -21,6 +21,14 @@ CHECKS = {
          "For every sampled program TLC derives every single-point corruption of the conforming baseline with its expected verdict (reject; unknown __typename -> Unknown variant iff the option is on; a known __typename selects its own variant). Each is run through the compiled generated types.",
          "Trusted: as C01. The corruption table contains only swaps that are wrong under the GraphQL specification as well (no Float<-integer, no ID<-integer, no object<-[]).",
          "DESIGN.md §5 C03", "model_checking"),
+ "C15": ("TLA+ grammar of GraphQL response bodies (Envelope.tla) enumerated exhaustively by TLC with expected preserved content and Display text; every body fed to graphql_client::Response / Error built from the working tree",
+         "Exhaustive enumeration of the bounded response-body grammar (every optional member absent / null / present, error entries with locations, mixed paths, nested extension JSON, unknown members); expected content and the Display line are computed in the specification. Every body is parsed by both serde_json routes, re-serialised, round-tripped and displayed by the real types.",
+         "Trusted: TLC, payload.py decoding, serde_json. T = serde_json::Map. Bounds: <=1 (quick) / 2 (thorough) error entries, fixed value pools per member.",
+         "DESIGN.md §5 C15", "model_checking"),
+ "C16": ("TLA+ value-class table (IdCoercion.tla) and ID type-expression x payload-variation model (MC_C16b) enumerated exhaustively by TLC; replayed (a) into the two serde_with helpers directly and (b) through generated code compiled in consumer crates at plain / flattened-fragment / union-variant positions and three schema renderings",
+         "Exhaustive within bounds: every value class x both helper functions x both serde_json routes; every ID type expression up to list depth 2 (3 thorough) x leaf kinds, null at each level, absence, scalar-for-list, x three positions; generated code must type-check (rustc) and coerce exactly the ID members (siblings String / Int must not coerce).",
+         "Trusted: TLC, projection, rustc + serde. Integers beyond the signed 64-bit range are outside the property.",
+         "DESIGN.md §5 C16", "model_checking"),
 }
 
 
